@@ -322,6 +322,10 @@ Theorem C17_checked_expression_is_used_expression :
 Proof. exact arch_checked_is_used. Qed.
 Print Assumptions C17_checked_expression_is_used_expression.
 
+Theorem C17_destination_is_a_path_not_a_pattern : gen_unzip_glob_calls = [].
+Proof. exact arch_no_pattern_matching. Qed.
+Print Assumptions C17_destination_is_a_path_not_a_pattern.
+
 Theorem C17_callers_are_the_modelled_extractors :
   (only_writer "writeTarToDir" gen_calls_copyout = true /\ gen_dest_arg_copyout = gen_dest_param_copyout) /\
   (only_writer "writeFirstFileAs" gen_calls_copyoutfile = true /\ gen_dest_arg_copyoutfile = gen_dest_param_copyoutfile) /\
